@@ -42,6 +42,9 @@ pub struct ChaosInput {
     /// chaos-cli: additionally materialise a workspace with cyclic imports / dependencies generated from this seed
     #[serde(default)]
     pub cyclic_seed: Option<u64>,
+    /// chaos-cli: the CLI's stdout cannot be written ("closed-pipe": EPIPE, "dev-full": ENOSPC)
+    #[serde(default)]
+    pub stdout_fault: Option<String>,
     pub run_seed: u64,
     #[serde(default)]
     pub sandbox: Option<String>,
@@ -59,7 +62,7 @@ impl Scenario for ChaosCli {
         "chaos-cli"
     }
     fn rule(&self) -> &'static str {
-        "a workspace made of hostile documents (every generated version becomes a file: multi-byte layouts, unparsable texts, CRLF/CR/BOM,          empty) plus malformed/unreadable files and broken plugin metadata is handed to `fixtures list` and `fixtures unused` (text and json) in          seeded child processes; invariant: the child neither panics nor aborts (exit status 0 or 1) and prints valid JSON; non-trivial = at          least one file is unparsable or malformed; distinct = input hash"
+        "a workspace made of hostile documents (every generated version becomes a file: multi-byte layouts, unparsable texts, CRLF/CR/BOM,          empty) plus malformed/unreadable files and broken plugin metadata is handed to `fixtures list` and `fixtures unused` (text and json) in          seeded child processes, in 3 of 11 runs with a stdout that cannot be written (a pipe nobody reads, a full device); invariant: the child neither panics nor aborts (exit status 0 or 1) and prints valid JSON; non-trivial = at          least one file is unparsable or malformed; distinct = input hash"
     }
     fn runs(&self, tier: Tier) -> u64 {
         match tier {
@@ -74,6 +77,11 @@ impl Scenario for ChaosCli {
         let mut v = Chaos { full_stack: true }.gen(run_seed ^ 0xc11, tier);
         if run_seed % 10 < 4 {
             v["cyclic_seed"] = serde_json::json!(run_seed ^ 0xc7c1);
+        }
+        match run_seed % 11 {
+            1 | 2 => v["stdout_fault"] = serde_json::json!("closed-pipe"),
+            3 => v["stdout_fault"] = serde_json::json!("dev-full"),
+            _ => {}
         }
         if run_seed % 7 == 3 {
             // "very large": one generated-data module whose single expression has tens of thousands of terms
@@ -132,22 +140,29 @@ impl Scenario for ChaosCli {
         out.count("hostile_files", k);
         let rootstr = root.to_string_lossy().to_string();
         for argv in [vec!["fixtures", "list", rootstr.as_str()], vec!["fixtures", "unused", rootstr.as_str()], vec!["fixtures", "unused", rootstr.as_str(), "--format", "json"], vec!["fixtures", "list", rootstr.as_str(), "--only-unused"]] {
-            match super::scen_cli::run_child(&inp.sim, &argv) {
+            let fault = inp.stdout_fault.as_deref();
+            match super::scen_cli::run_child_faulty(&inp.sim, &argv, fault) {
                 Ok((code, so, se)) => {
                     out.count("child_processes", 1);
                     out.state_hash = mix(out.state_hash, fnv(&so));
-                    if !(code == 0 || code == 1) || se.contains("panicked") || se.contains("CHILD-ABORT") {
+                    if let Some(f) = fault {
+                        out.count(&format!("fault.cli_stdout_{}", f.replace('-', "_")), 1);
+                    }
+                    // with an unwritable stdout the exit status is the CLI's business (an error status, death by SIGPIPE);
+                    // what the statement rules out stays ruled out: a panic (status 101) or an abort (SIGABRT, SIGSEGV)
+                    let status_ok = if fault.is_some() { !matches!(code, 101 | 70 | 134 | 139 | -6 | -11 | -4 | -7) } else { code == 0 || code == 1 };
+                    if !status_ok || se.contains("panicked") || se.contains("CHILD-ABORT") {
                         let deep = inp.bad_files.iter().any(|(_, k)| k == "deep-expression");
                         let class = if se.contains("panicked") || se.contains("Panic") {
                             panic_class(se.lines().find(|l| l.contains("CHILD-ABORT") || l.contains("panicked")).unwrap_or(""))
-                        } else if deep && (code == -1 || code == 134 || se.contains("overflowed its stack")) {
+                        } else if deep && (code == -1 || code == -6 || code == -11 || code == 134 || se.contains("overflowed its stack")) {
                             "RC-DEEP-EXPRESSION-STACK-OVERFLOW".to_string()
                         } else {
                             "cli-abnormal-exit".to_string()
                         };
                         out.violate(&class, format!("`{}` exited with status {} on a hostile workspace; stderr: {}", argv[..2].join(" "), code, super::batch::clip(&se, 500)));
                     }
-                    if (code == 0 || code == 1) && argv.contains(&"json") && serde_json::from_str::<Value>(&so).is_err() {
+                    if fault.is_none() && (code == 0 || code == 1) && argv.contains(&"json") && serde_json::from_str::<Value>(&so).is_err() {
                         out.violate("cli-json-invalid", format!("json output does not parse: {:?}", super::batch::clip(&so, 300)));
                     }
                 }
@@ -277,6 +292,7 @@ impl Scenario for Chaos {
             refresh_delay: if self.full_stack { *rng.pick(&[0i32, 2, 30, -3]) } else { 0 },
             bad_files,
             cyclic_seed: None,
+            stdout_fault: None,
             run_seed,
             sandbox: None,
         })
